@@ -775,7 +775,11 @@ class World:
                             tgt.unset.discard(attr)
                         defined.add("%s.%s" % (base, attr))
                         continue
-                cv = eng.eval_merged(lambda cl=cl: eng.truth(eng.eval_str(cl, fr)))
+                eng.assume_clauses = getattr(eng, "assume_clauses", 0) + 1
+                try:
+                    cv = eng.eval_merged(lambda cl=cl: eng.truth(eng.eval_str(cl, fr)))
+                finally:
+                    eng.assume_clauses -= 1
                 if cv is False or (not isinstance(cv, bool) and z3.is_false(z3.simplify(cv))):
                     # assuming it would silently cut the path (vacuity): the contract cannot be applied here
                     raise OutOfSubset("postcondition %r of %s is unsatisfiable at this call site (contract error)" % (cl, fi.qualname))
@@ -1001,11 +1005,19 @@ class World:
             if c.setup:
                 c.setup(eng, fr)
             for fld, expr in c.init.items():
-                base, attr = fld.split(".", 1) if "." in fld else ("self", fld)
+                base, attr = fld.rsplit(".", 1) if "." in fld else ("self", fld)
                 tgt = eng.force(eng.eval_str(base, fr))
                 tgt.fields[attr] = eng.eval_str(expr, fr)
             for r in c.requires:
                 if world.alias_requires(eng, r, fr):
+                    continue
+                t_ = world.parse_expr(r)
+                if isinstance(t_, ast.Call) and isinstance(t_.func, ast.Name) and t_.func.id == "markup_safe":
+                    # precondition on a parameter: the caller has shown the string to be safe markup
+                    v_ = eng.force(eng.eval(t_.args[0], fr))
+                    if isinstance(v_, VStr) and not is_conc(v_.z):
+                        eng.safe_terms.add(zstr(v_.z).get_id())
+                        eng.keepalive.append(zstr(v_.z))
                     continue
                 eng.assume(eng.eval_merged(lambda r=r: eng.truth(eng.eval_str(r, fr))))
             for lname, binds in c.use_lemmas:
